@@ -35,6 +35,7 @@ def world_makers():
         "squeeth(ne)": lambda: catalog.squeeth_world("ne", n=10),
         "deribit": lambda: catalog.deribit_world(),
         "deribit+uni": lambda: catalog.deribit_uni_world(2),
+        "deribit(gap)+uni": lambda: catalog.deribit_uni_world(3, drop_hours=(1,)),  # the 01:00 book is missing: bars 60..119 have no book of their own
         "gmx1": lambda: catalog.gmx1_world(n=5),
         "gmx2(mild,small)": lambda: catalog.gmx2_world(kind="mild", impact="small", n=5),
     }
@@ -100,10 +101,18 @@ def variant_hook(kind, cut_ts):
     return hook
 
 
+def tz_hook(name, df):
+    """the same history with a time-zone-aware (UTC) index, as exports of other tools deliver it"""
+    if isinstance(df.index, pd.DatetimeIndex) and df.index.tz is None:
+        df = df.copy()
+        df.index = df.index.tz_localize("UTC")
+    return df
+
+
 def make_world(wname, variant=None):
     from mc.worlds import catalog
 
-    catalog.RAW_HOOK[0] = variant_hook(*variant) if variant else None
+    catalog.RAW_HOOK[0] = (tz_hook if variant == "tz" else variant_hook(*variant)) if variant else None
     try:
         return world_makers()[wname]()
     finally:
@@ -284,9 +293,9 @@ def judge_pair(part, wname, interval, sname, k_raw, vkind):
     part.sample(case, every=53)
 
 
-def judge_inputs(part, wname, interval, sname):
-    case = {"world": wname, "interval": interval, "strategy": sname, "check": "inputs-intact"}
-    w = make_world(wname)
+def judge_inputs(part, wname, interval, sname, tz=False):
+    case = {"world": wname, "interval": interval, "strategy": sname, "check": "inputs-intact", "tz_aware_index": tz}
+    w = make_world(wname, "tz" if tz else None)
     d0 = frames_digest(w)
     a = run_once(w, sname, interval)
     d1 = frames_digest(w)
@@ -298,7 +307,13 @@ def judge_inputs(part, wname, interval, sname):
     if a.get("rows_rewritten"):
         part.violation("C02|history|row-rewritten", "a row of the account history changed after its bar was over (what bars 0..k show depends on later bars)", case,
                        {"rows": a["rows_rewritten"]})
-    b = run_once(w, sname, interval)  # fresh Actuator, Broker and market objects on the SAME frames
+    if changed:
+        return  # the frames are no longer the inputs that were supplied: nothing to repeat
+    try:
+        b = run_once(w, sname, interval)  # fresh Actuator, Broker and market objects on the SAME frames
+    except Exception as e:  # noqa: BLE001
+        part.violation("C02|inputs|rerun-raised", "repeating the backtest on the same inputs could not even be set up", case, {"error": repr(e)[:200]})
+        return
     if a["error"] != b["error"] or a["rows"] != b["rows"] or a["actions"] != b["actions"] or [str(x) for x in a["bars"]] != [str(x) for x in b["bars"]]:
         first = next((i for i, (x, y) in enumerate(zip(a["rows"], b["rows"])) if x != y), None)
         part.violation("C02|inputs|rerun-differs", "repeating the backtest on the same inputs with a fresh account does not reproduce the result", case,
@@ -329,10 +344,14 @@ def all_items(run):
         for interval in intervals:
             m = INTERVALS[interval]
             cuts = list(range(n - 1)) if not heavy else ([0, 29, 59, 60] if not run.thorough else [0, 1, 29, 30, 58, 59, 60])
+            if wname == "deribit(gap)+uni":
+                cuts = [59, 75] if not run.thorough else [30, 59, 60, 75, 119]
             if interval != "1min":
                 cuts = [c for c in cuts if (c + 1) % m == 0] or cuts[:1]
             for sname in strategies if not heavy else ["every-bar", "data-dependent"]:
                 items.append(("inputs", wname, interval, sname))
+                if wname in ("uni(q0)", "gmx1") and interval == "1min" and sname in ("seeded", "every-bar"):
+                    items.append(("inputs", wname, interval, sname, True))  # the supplied frames carry a time-zone-aware index
                 for k in cuts:
                     for v in variants:
                         items.append(("pair", wname, interval, sname, k, v))
@@ -341,8 +360,8 @@ def all_items(run):
 
 def main(run: Run):
     items = run.rotate(all_items(run))
-    heavy = [i for i in items if i[1] == "deribit+uni"]
-    light = [i for i in items if i[1] != "deribit+uni"]
+    heavy = [i for i in items if i[1] in ("deribit+uni", "deribit(gap)+uni")]
+    light = [i for i in items if i[1] not in ("deribit+uni", "deribit(gap)+uni")]
     jobs = [(run.seed, ch) for ch in chunks(light, 64)] + [(run.seed, ch) for ch in chunks(heavy, 16)]
     for r in pmap(work, jobs):
         run.merge(r)
